@@ -202,4 +202,10 @@ theorem stepErrs_respond (s : Sys) (vs : List Verdict) (h : s.active = true) :
   | missing => simp
   | code k => cases hc : classify k <;> simp [hc]
 
+
+/-- the case labels of `switch block.Err` in fetchInitialOffset (NoError / coordinator moved / loading) are
+    the model's table; what the retry loop around it does is tied by correspondence (fault scripts that
+    outlast Metadata.Retry.Max) — it contains recursion and a select the translator does not take -/
+theorem fetchCases_eq : Gen.C06.fetchCases = fetchCases := rfl
+
 end Bridge.C06
